@@ -2,6 +2,7 @@
 Reference model and shared oracles, written from the NIP texts.  Never imports nostr_relay.
 """
 import hashlib
+import math
 import json
 
 from coincurve import PublicKeyXOnly
@@ -73,6 +74,8 @@ def authentic(ev):
         for f in ("created_at", "kind"):
             if isinstance(ev[f], bool) or not isinstance(ev[f], (int, float)):
                 return False, "created_at/kind not numbers"
+            if isinstance(ev[f], float) and not math.isfinite(ev[f]):
+                return False, "created_at/kind not finite (no canonical JSON form)"
         if not isinstance(ev["content"], str) or not isinstance(ev["tags"], list):
             return False, "content/tags type"
         try:
